@@ -114,7 +114,7 @@ class Monitor:
         if op in ("dict", "master"):
             self.reset_state(op == "master")
             return
-        if op in ("add", "adds") and len(t) == 2 and len(o) >= 3:
+        if op in ("add", "adds", "addp") and len(t) == 2 and len(o) >= 3:
             h, ident, cnt = t[1], int(o[1]), int(o[2])
             if h in self.id_of:
                 if ident != self.id_of[h]:
@@ -324,7 +324,8 @@ def gen_case(rng, n, master=None, pool_size=40):
                                      "get 61 62", "adds 0061", "reset now"]))
         elif r < 0.45:
             t = rng.choice(pool)
-            lines.append(("add " if rng.random() < 0.6 else "adds ") + t)
+            r = rng.random()
+            lines.append(("add " if r < 0.5 else "adds " if r < 0.8 else "addp ") + t)
             added.append(t)
             size_hint += 1
         elif r < 0.60:
@@ -363,7 +364,7 @@ def gen_growth(rng, n, master, probe=0.05, presize=True):
     for i in range(n):
         t = hx(("%s_%d" % (stem, i)).encode()) if rng.random() < 0.9 else hx(bytes([rng.randint(1, 255) for _ in range(rng.randint(1, 9))]) + ("%d" % i).encode())
         texts.append(t)
-        lines.append(("add " if i % 3 else "adds ") + t)
+        lines.append(("add " if i % 3 else "adds " if i % 2 else "addp ") + t)
         if rng.random() < probe:
             k = rng.randint(0, i)
             c = rng.random()
@@ -474,7 +475,7 @@ def check(ctx):
     ctx.samples = [gen_case(ctx.rng("sample"), 10)[:14]]
     cov = {
         "evaluations": d.cases, "distinct_nontrivial": len(d.distinct),
-        "rule": "histories of add/adds/get/str/more/reset/predef/all/dump over pools of texts (empty, case variants, common prefixes, long, binary incl. bytes >= 128, 8-16 texts with identical hash) for stand-alone dictionaries and script masters, 3% illegal lines; every history of the stated length over 9 operations on 3 texts (two colliding); growth histories interning up to the stated number of fresh texts with interleaved lookups; non-trivial = at least one accepted operation with an observation; distinct by SHA-1 of the op lines",
+        "rule": "histories of add/adds/addp (character array, dynamic string, (pointer,length) view into a longer buffer)/get/str/more/reset/predef/all/dump over pools of texts (empty, case variants, common prefixes, long, binary incl. bytes >= 128, 8-16 texts with identical hash) for stand-alone dictionaries and script masters, 3% illegal lines; every history of the stated length over 9 operations on 3 texts (two colliding); growth histories interning up to the stated number of fresh texts with interleaved lookups; non-trivial = at least one accepted operation with an observation; distinct by SHA-1 of the op lines",
         "op_lines": d.lines, "op_histogram": d.hist, "model_answer_kinds": d.outkinds,
         "max_entries": max(sizes), "table_lengths_crossed": crossed,
         "exhaustive": False,
